@@ -25,7 +25,9 @@ import (
 // RECEIVED THEM (an ideal in-order memory), through the real return handlers. The model must predict
 // which transactions reach the port in which cycle, and the queue lengths after every cycle.
 //
-// Oracles on the real unit: C14.vmu.lost (a transaction is in exactly one place), C14.vmu.send-order
+// Oracles on the real unit: C14.vmu.lost (a transaction is in exactly one place), C14.vmu.in-order-list
+// (transactionsInOrder = set aside + buffer + pipeline, counter = flagged entries, bounded, nothing
+// set aside with one lane), C14.vmu.drained (a memory that takes requests empties the unit), C14.vmu.send-order
 // (requests leave in creation order), C14.vmu.counter-early (behind an in-order memory
 // OutstandingVectorMemAccess never drops below the number of instructions that still have a
 // transaction unanswered — what s_waitcnt vmcnt relies on).
@@ -144,16 +146,24 @@ func c14VmuCase(r *Run, rng *Rng, sh c14VmuShape, caseNo int, directed bool) {
 		}
 		nsent = len(hook.ids)
 		waiting, post := e.cu.VerifVMUQueued()
-		inPipe := created - nsent - waiting - post
+		inOrder, flagged, aside := e.cu.VerifVMUInOrder()
+		inPipe := created - nsent - waiting - post - aside
 		r.Checked("vmu.lost")
 		if inPipe < 0 || inPipe > sh.w*sh.n {
-			fail("C14.vmu.lost", "%d transactions created, %d sent, %d waiting, %d in the post-pipeline buffer: %d would be inside a pipeline of %d places", created, nsent, waiting, post, inPipe, sh.w*sh.n)
+			fail("C14.vmu.lost", "%d transactions created, %d sent, %d waiting, %d in the post-pipeline buffer, %d set aside: %d would be inside a pipeline of %d places", created, nsent, waiting, post, aside, inPipe, sh.w*sh.n)
+		}
+		// the bookkeeping of the entry order: the list holds exactly what is set aside, in the buffer
+		// or in the pipeline; the counter is the number of flagged entries; the storage is bounded;
+		// one lane sets nothing aside
+		r.Checked("vmu.in-order-list")
+		if inOrder != aside+post+inPipe || flagged != aside || inOrder > sh.b+sh.w*sh.n || (sh.w == 1 && aside != 0) {
+			fail("C14.vmu.in-order-list", "transactionsInOrder holds %d entries (%d flagged setAside), numTransactionsSetAside = %d, %d in the post-pipeline buffer, %d in the pipeline (bound %d + %d x %d)", inOrder, flagged, aside, post, inPipe, sh.b, sh.w, sh.n)
 		}
 		s := "-"
 		if len(now) > 0 {
 			s = strings.Join(now, ".")
 		}
-		toks = append(toks, fmt.Sprintf("%s/%d:%d:%d", s, waiting, inPipe, post))
+		toks = append(toks, fmt.Sprintf("%s/%d:%d:%d:%d", s, waiting, inPipe, post, aside))
 		// the ideal in-order memory: takes t requests and answers them in that order, at once
 		for k := 0; k < t; k++ {
 			m := e.cu.ToVectorMem.RetrieveOutgoing()
@@ -221,6 +231,16 @@ func c14VmuCase(r *Run, rng *Rng, sh c14VmuShape, caseNo int, directed bool) {
 		for k := 0; k < 12; k++ {
 			cyc(16)
 		}
+		// liveness: the memory takes 16 requests per cycle; every transaction created leaves the unit
+		// (a load transaction with coalescing penalty p keeps the pipeline entry busy for p more cycles)
+		limit := 100 + (sh.pen+1)*(created-nsent)
+		for k := 0; k < limit && nsent < created; k++ {
+			cyc(16)
+		}
+		r.Checked("vmu.drained")
+		if nsent < created {
+			fail("C14.vmu.drained", "%d transactions created, only %d sent although the memory took 16 requests per cycle for %d cycles", created, nsent, limit)
+		}
 	})
 	if fault != "" {
 		r.Failf("C14.vmu.fault", line(), "the real vector memory unit panicked: %s", fault)
@@ -240,7 +260,7 @@ func c14VmuCase(r *Run, rng *Rng, sh c14VmuShape, caseNo int, directed bool) {
 }
 
 func runC14Vmu(r *Run, rng *Rng, replay string) {
-	shapes := []c14VmuShape{{1, 10, 8, 0}, {1, 10, 8, 3}, {8, 4, 64, 3}, {8, 4, 64, 0}, {2, 1, 8, 0}, {4, 2, 8, 3}, {1, 0, 8, 0}, {1, 1, 8, 0}, {3, 3, 16, 3}}
+	shapes := []c14VmuShape{{1, 10, 8, 0}, {1, 10, 8, 3}, {8, 4, 64, 3}, {8, 4, 64, 0}, {2, 1, 8, 0}, {4, 2, 8, 3}, {1, 0, 8, 0}, {1, 1, 8, 0}, {3, 3, 16, 3}, {2, 1, 8, 0}, {4, 1, 8, 3}, {8, 4, 8, 0}, {2, 0, 8, 0}}
 	// the two shipped configurations under back-pressure
 	c14VmuCase(r, rng, c14VmuShape{1, 10, 8, 0}, 0, true)
 	c14VmuCase(r, rng, c14VmuShape{8, 4, 64, 3}, 1, true)
